@@ -1,3 +1,103 @@
 import Driver.Common
-/-! stub: replaced by the owner of this driver -/
-def main : IO Unit := Driver.run () (fun s _ => (s, "bad-op"))
+import ScionVerif.Model.AesCmac
+import ScionVerif.Spec.RefRouter
+/-! line-protocol driver for the data-plane models (C13, C01): `sim` = model of pocketscion, `ref` = reference router -/
+open ScionVerif.Router ScionVerif.Generated.Router Driver
+
+structure St where
+  topo : Topo := { ases := [], links := [] }
+
+def macf : MacF := fun key beta ts exp ci ce => ScionVerif.AesCmac.hopMac key beta ts exp ci ce
+
+def nats (ws : List String) : Option (List Nat) := ws.mapM (·.toNat?)
+
+def takeInfos : Nat → List Nat → Option (List Info × List Nat)
+  | 0, r => some ([], r)
+  | n + 1, c :: p :: s :: t :: r => do
+    let (is, r') ← takeInfos n r
+    some ({ consDir := c != 0, peer := p != 0, segId := s, ts := t } :: is, r')
+  | _, _ => none
+
+def takeHops : Nat → List Nat → Option (List Hop × List Nat)
+  | 0, r => some ([], r)
+  | n + 1, a :: b :: e :: ci :: ce :: m :: r => do
+    let (hs, r') ← takeHops n r
+    some ({ inAlert := a != 0, egAlert := b != 0, exp := e, consIngress := ci, consEgress := ce, mac := m } :: hs, r')
+  | _, _ => none
+
+def parsePath (ns : List Nat) : Option Path :=
+  match ns with
+  | ci :: ch :: s0 :: s1 :: s2 :: nI :: nH :: rest => do
+    let (is, r1) ← takeInfos nI rest
+    let (hs, r2) ← takeHops nH r1
+    if r2.isEmpty then some { currInf := ci, currHf := ch, seg0 := s0, seg1 := s1, seg2 := s2, infos := is, hops := hs } else none
+  | _ => none
+
+def b2n (b : Bool) : Nat := if b then 1 else 0
+
+def showPath (p : Path) : String :=
+  let is := p.infos.map (fun i => s!" {b2n i.consDir} {b2n i.peer} {i.segId} {i.ts}")
+  let hs := p.hops.map (fun h => s!" {b2n h.inAlert} {b2n h.egAlert} {h.exp} {h.consIngress} {h.consEgress} {h.mac}")
+  s!"{p.currInf} {p.currHf} {p.seg0} {p.seg1} {p.seg2} {p.infos.length} {p.hops.length}" ++ String.join is ++ String.join hs
+
+def showErr : VErr → String
+  | .ppConsIngress => "pp_cons_ingress" | .ppConsEgress => "pp_cons_egress" | .invalidPath => "invalid_path"
+  | .pathExpired => "path_expired" | .invalidMac => "invalid_mac" | .invalidSegChange => "invalid_seg_change"
+  | .erroneousHeader => "erroneous_header" | .ifDown i => s!"if_down:{i}" | .nonLocalDelivery => "non_local_delivery"
+
+def showAction : Action → String
+  | .forwardNext e => s!"next {e}" | .forwardLocal => "local" | .ingressScmp i => s!"iscmp {i}"
+  | .egressScmp i => s!"escmp {i}" | .scmpError e => s!"err {showErr e}" | .drop => "drop"
+
+def showVerdict : Verdict → String
+  | .delivered a => s!"delivered {a}" | .scmp a e => s!"scmp {a} {showErr e}"
+  | .scmpRequest a i eg => s!"scmpreq {a} {i} {b2n eg}" | .external a e x xi => s!"external {a} {e} {x} {xi}"
+  | .dropped a => s!"dropped {a}" | .simError a => s!"simerror {a}"
+
+def parseRole : String → Option LinkRole
+  | "core" => some .core | "child" => some .child | "parent" => some .parent | "peer" => some .peer | _ => none
+
+def step (st : St) : List String → St × String
+  | ["topo-reset"] => ({ topo := { ases := [], links := [] } }, "ok")
+  | ["as", ia, core, ext, key] =>
+    match ia.toNat?, core.toNat?, ext.toNat?, parseHex key with
+    | some ia, some c, some e, some k =>
+      ({ topo := { st.topo with ases := st.topo.ases ++ [{ ia, core := c != 0, external := e != 0, key := k }] } }, "ok")
+    | _, _, _, _ => (st, "bad-op")
+  | ["link", o, i, role, pa, pi, up] =>
+    match o.toNat?, i.toNat?, parseRole role, pa.toNat?, pi.toNat?, up.toNat? with
+    | some o, some i, some r, some pa, some pi, some up =>
+      ({ topo := { st.topo with links := st.topo.links ++ [{ owner := o, ifId := i, role := r, peerAs := pa, peerIf := pi, up := up != 0 }] } }, "ok")
+    | _, _, _, _, _, _ => (st, "bad-op")
+  | "route" :: which :: rest =>
+    match nats rest with
+    | some (localAs :: dstAs :: ing :: now :: ign :: pn) =>
+      match parsePath pn, st.topo.asInfo localAs with
+      | some p, some a =>
+        let r := if which == "sim" then routeStd macf localAs dstAs p ing now a.key (st.topo.lookup localAs) (ign != 0)
+                 else Ref.process macf localAs dstAs p ing now a.key (st.topo.lookup localAs) (ign != 0)
+        if which == "sim" || which == "ref" then (st, s!"{showAction r.2} ; {showPath r.1}") else (st, "bad-op")
+      | _, _ => (st, "bad-op")
+    | _ => (st, "bad-op")
+  | "walk" :: which :: rest =>
+    match nats rest with
+    | some (startAs :: ing :: dstAs :: now :: ign :: pn) =>
+      match parsePath pn with
+      | some p =>
+        let fuel := p.hopCount + 2
+        let r := if which == "sim" then walk macf st.topo dstAs now (ign != 0) fuel startAs ing p 0
+                 else Ref.walk macf st.topo dstAs now (ign != 0) fuel startAs ing p 0
+        if which == "sim" || which == "ref" then
+          match r with
+          | some (v, _, n) => (st, s!"{showVerdict v} steps {n}")
+          | none => (st, "out-of-fuel")
+        else (st, "bad-op")
+      | none => (st, "bad-op")
+    | _ => (st, "bad-op")
+  | ["mac", key, beta, ts, exp, ci, ce] =>
+    match parseHex key, nats [beta, ts, exp, ci, ce] with
+    | some k, some [b, t, e, i, g] => (st, toString (macf k b t e i g))
+    | _, _ => (st, "bad-op")
+  | _ => (st, "bad-op")
+
+def main : IO Unit := Driver.run ({} : St) step
